@@ -5,6 +5,11 @@
 # tree (VERIF_REPO) and stores patch, demonstration and meta.json under /verif/seeded/<seed-id>/.
 import json, os, shutil, subprocess, sys, tempfile, time
 ROOT = os.path.dirname(os.path.dirname(os.path.abspath(__file__)))
+# with --recheck: keep the recorded confirmation (suite, demonstration) and the first results; run the checks again and store the
+# outcome under results_after_strengthening
+recheck = "--recheck" in sys.argv
+if recheck:
+    sys.argv.remove("--recheck")
 sid, wt, prop, democmd = sys.argv[1:5]
 props = [prop] + sys.argv[5:]
 out = os.path.join(ROOT, "seeded", sid)
@@ -15,6 +20,30 @@ def sh(cmd, cwd=None, timeout=3600, env=None):
     p = subprocess.run(cmd, shell=True, cwd=cwd, stdout=subprocess.PIPE, stderr=subprocess.STDOUT, timeout=timeout, env=e)
     return p.returncode, p.stdout.decode("utf-8", "replace")
 
+if recheck:
+    meta = json.load(open(os.path.join(ROOT, "seeded", sid, "meta.json")))
+    first = meta["results"]
+    meta["results"] = {}
+    for p in props:
+        t0 = time.time()
+        rc, o = sh("./check %s --tier quick" % p, cwd=ROOT, env={"VERIF_REPO": wt}, timeout=3600)
+        lines = [l for l in o.splitlines() if l.startswith(("VIOLATION", "OK ", "KNOWN-FINDING"))]
+        rep = None
+        for l in lines:
+            if l.startswith("VIOLATION") and "replay=" in l:
+                try:
+                    rep = json.load(open(l.split("replay=")[1].split()[0]))
+                    rep = {k: (str(v)[:400]) for k, v in rep.items() if k in ("kind", "case", "model_obs", "impl_obs", "broken", "n_failing")}
+                except Exception:
+                    pass
+        meta["results"][p] = dict(rc=rc, lines=lines, replay=rep, wall_s=round(time.time() - t0, 1))
+        print(p, rc, lines[-1] if lines else "", rep)
+    meta["results_after_strengthening"] = meta["results"]
+    meta["results"] = first
+    sh("rm -f replays/*.json", cwd=ROOT)
+    sh("git checkout -- evidence", cwd=ROOT)
+    json.dump(meta, open(os.path.join(ROOT, "seeded", sid, "meta.json"), "w"), indent=1)
+    sys.exit(0)
 meta = dict(id=sid, breaks=prop, worktree=wt, ran=[], results={})
 rc, diff = sh("git diff -- include src", cwd=wt)
 open(os.path.join(out, "patch.diff"), "w").write(diff)
